@@ -23,6 +23,7 @@ def decl_specs(tier):
     for s in c01.decl_specs('quick')[-200:]:
         if s.get('opts') and not (set(s['names']) & EXCLUDED):
             specs.append(s)
+    specs.extend(alphabet.families())
     return specs
 
 
@@ -103,6 +104,11 @@ def check_decl(dc, st, tier, only=None):
     budget = 800 if tier == 'quick' else 4000
     seen = set()
     for raw, r in ea.inputs_for(dc, budget):
+        # rejected inputs are parsed too: a failed parse in between must not disturb the round trips that follow
+        try:
+            dc.K.unpack(raw, silent=True)
+        except Exception:
+            pass
         if r[0] != 'ok':
             continue
         key = repr(r[1].pv)
